@@ -241,6 +241,11 @@ def works_after_other_calls(w, model, m, n, base, op):
 
 
 def build(cfg, values=None):
+    if cfg.get('shell_threads'):
+        # complete shells, non-linear quantities: the integration grid handed to the kernels is the one of the definition whatever the
+        # number of integration threads, and tangent / internal force stay consistent (harness shared with C17)
+        from . import c17
+        return c17.build(dict(cfg, variant='api'), values)
     if cfg.get('shell_history'):
         # complete shells: the stored reduced stiffness handed to the static analyses follows the CURRENT definition (harness shared with C16)
         from . import c16
@@ -422,6 +427,9 @@ def configs(tier, seed):
                      ('other-ply-material-list', ({'laminaprops': [('E_before', 'E_before', 0.3)]}, {'laminaprops': [('E_now', 'E_now', 0.3)]}))):
         out.append({'shell_history': True, 'model': 'clpt_donnell_bc1', 'mn': (2, 2, 1), 's': 1, 'cone': True, 'redefine': red, 'm': 2, 'n': 1, 'variant': 'shell-calc_k0-after-redefinition',
                     'first': 'calc_k0', 'redef': tag, 'last': 'calc_k0', 'group': 'shell-redefinition-%s:calc_k0' % tag, 'timeout_ms': 180000})
+    for grid in ((3, 8, 5), (7, 9, 4)):
+        out.append({'shell_threads': True, 'model': 'clpt_donnell_bc1', 'mn': (2, 2, 1), 'cone': True, 'pd': (False, False, True), 'grid': grid, 'm': 2, 'n': 1,
+                    'variant': 'shell-threads', 'first': '-', 'redef': 'none', 'last': 'calc_kT', 'group': 'shell-integration-grid:%d-threads-%dx%d' % grid, 'timeout_ms': 600000})
     for pd in ((True, True, True), (True, False, True), (False, True, True)):
         out.append({'shell_full_c': True, 'pd': pd, 'mn': (1, 1, 1), 'm': 1, 'n': 1, 'variant': 'shell-amplitude-vector', 'first': '-', 'redef': 'none', 'last': 'calc_full_c',
                     'group': 'shell-amplitude-vector:pdC=%d,pdT=%d' % pd[:2]})
@@ -450,7 +458,7 @@ def main():
     run.encoded('compmech/conecyl/conecyl.py', 'ConeCyl._calc_linear_matrices (repeated evaluation), calc_k0 (stored matrices after a redefinition), calc_full_c (caller vector unchanged, repeated request)')
     run.encoded('compmech/stiffpanelbay/stiffpanelbay.py', 'StiffPanelBay.calc_k0, calc_kG0, calc_kM (after re-definition of a stiffener)')
     run.encoded('compmech/stiffener/bladestiff1d.py', 'BladeStiff1D._rebuild, calc_k0, calc_kG0, calc_kM')
-    run.outside = ['OpenMP races', 'ConeCyl histories beyond repeated evaluation of the linear matrices', 'plotting', 'histories longer than the bound']
+    run.outside = ['OpenMP races (the chunking is executed sequentially)', 'ConeCyl histories beyond those listed', 'what a plot draws', 'histories longer than the bound']
     res = pmap(kprop.job, [(__name__, c) for c in cf])
     res = kprop.explore_loci(__name__, res, run)      # second pass: the equality loci the executed code branched on
     for r in res:
